@@ -24,7 +24,7 @@ def row(d, hist):
             parts.append(f"{c}: " + ', '.join(f'`{x}`' for x in s))
         else:
             parts.append(f"{c}: not reported")
-    return name, m.get('wave', 1), f"| {name} | {'; '.join(parts)} | {hist.get(name, m.get('history', ''))} |", m
+    return name, m.get('wave', 1), f"| {name} | {'; '.join(parts)} | {m.get('history') or hist.get(name, '')} |", m
 
 
 def main():
